@@ -118,6 +118,8 @@ pub enum AdminOp {
     Resume { #[serde(with = "ustr")] n: u128, #[serde(with = "ustr")] l: u128, #[serde(with = "ustr")] r: u128 },
     /// resume with the current totals (honest restart)
     ResumeSame,
+    /// resume with the current staked and LST totals but another reward total (a correction of the counter alone)
+    ResumeRewardOnly { #[serde(with = "ustr")] r: u128 },
     UpdateConfig(Vec<CfgSection>),
     FeeWithdraw { #[serde(with = "ustr")] amount: u128 },
     /// withdraw min(amount, accrued)
@@ -278,4 +280,7 @@ pub struct Swarm {
     /// behaviour may depend on how it happens to be sorted)
     #[serde(default)]
     pub mon_rev: bool,
+    /// block times carry a sub-second part
+    #[serde(default)]
+    pub sub_second: bool,
 }
